@@ -42,4 +42,15 @@ def templateEvoAspirate : List String := ["B;Aspirate(", "{tip_selection}", ",\"
 def templateEvoDispense : List String := ["B;Dispense(", "{tip_selection}", ",\"", "{liquid_class}", "\",", "{tip_volumes}", "0,0,0,0,", "{labware_position[0]}", ",", "{labware_position[1]}", ",1,\"", "{code_string}", "\",0,", "{arm}", ");"]
 def templateEvoWash : List String := ["B;Wash(", "{tip_selection}", ",", "{waste_location[0]}", ",", "{waste_location[1]}", ",", "{cleaner_location[0]}", ",", "{cleaner_location[1]}", ",\"", "{waste_vol}", "\",", "{waste_delay}", ",\"", "{cleaner_vol}", "\",", "{cleaner_delay}", ",", "{airgap}", ",", "{airgap_speed}", ",", "{retract_speed}", ",", "{fastwash}", ",", "{low_volume}", ",1000,", "{arm}", ");"]
 
+/-- The order in which an operation touches the tracking, the comment and the emission (C03: the tracking is updated —
+    and may refuse — before anything is appended).  `Proofs/OrderOK.lean` shows that the model's compile functions
+    concatenate their blocks in exactly this order. -/
+def orderAspirate : List String := ["labware.remove", "self.comment", "self._get_well_position", "self.aspirate_well"]
+def orderDispense : List String := ["labware.add", "self.comment", "self._get_well_position", "self.dispense_well"]
+def orderDistribute : List String :=
+  ["raise ValueError", "raise InvalidOperationError", "self._get_well_position", "raise ValueError", "source.remove",
+   "source.get_well_composition", "destination.add", "self.comment", "self.reagent_distribution"]
+def orderEvoAspirate : List String := ["labware.remove", "self.comment", "commands.evo_aspirate", "self.append"]
+def orderEvoDispense : List String := ["labware.add", "self.comment", "commands.evo_dispense", "self.append"]
+
 end Robotools.Spec
